@@ -309,6 +309,17 @@ def other_algorithm(algorithm):
                 algorithm, algorithm + "-cert-v01@openssh.com")
 
 
+# proof variant (C14 wave 7): the signature blob NAMES another signature algorithm than the request does (the
+# server's "signature algorithm differs from the requested one" path, taken before any verifier runs), and its
+# last bit is flipped as well, so that it is a valid proof under no reading of the blob.
+SIG_MISLABELLED = "mislabelled"
+
+
+def mislabel(algorithm):
+    return {"rsa-sha2-256": "rsa-sha2-512", "rsa-sha2-512": "rsa-sha2-256", "ssh-rsa": "rsa-sha2-256",
+            "ssh-ed25519": "ecdsa-sha2-nistp256"}.get(algorithm, "ssh-ed25519")
+
+
 _captured = {}
 
 
@@ -363,12 +374,20 @@ def publickey_request(session_id, user, service, keykind, algorithm, sigvar):
         kb = key(OTHER_KEY[keykind]).asbytes()
     elif sigvar == "wrong-key":
         signer = key(OTHER_KEY[keykind])
-    elif sigvar not in ("valid", "sigbit") + R.SIG_MALFORMED:
+    elif sigvar not in ("valid", "sigbit", SIG_MISLABELLED) + R.SIG_MALFORMED:
         raise ValueError(sigvar)
     sig = signer.sign_ssh_data(session_blob(sid, u, svc, meth, alg, kb), algorithm)
     sig = sig.asbytes() if hasattr(sig, "asbytes") else bytes(sig)
     if sigvar == "sigbit":
         sig = sig[:-1] + bytes([sig[-1] ^ 0x01])
+    elif sigvar == SIG_MISLABELLED:
+        sm = Message(sig)
+        sm.get_string()
+        blob = sm.get_binary()
+        out = Message()
+        out.add_string(mislabel(algorithm))
+        out.add_string(blob[:-1] + bytes([blob[-1] ^ 0x01]))
+        sig = out.asbytes()
     elif sigvar in R.SIG_MALFORMED:
         # signature = string(algorithm name) + string(blob): keep the name, re-encode a damaged blob
         sm = Message(sig)
